@@ -293,6 +293,8 @@ def run_shard(shard, ctx):
 
 
 def finish(r, tier, seed):
-    return {'helper_calls': {k: v for k, v in r.counters.items() if k.startswith('helper:')}, 'exhaustive': False,
+    from ..refcheck import flag_consistency_verdict
+    extra = flag_consistency_verdict(r, ID)
+    return {**extra, 'helper_calls': {k: v for k, v in r.counters.items() if k.startswith('helper:')}, 'exhaustive': False,
             'exhaustive_subspaces': ['ADDRESS over all columns 1..16384 x rows {1,77,1048576}',
                                      'INDEX over (r,c) in [-1..6]^2 for all area shapes up to 4x4']}
